@@ -46,14 +46,18 @@ TRUSTED = [
     "float: angles/matrices compared to 1e-9 (1e-6 for the ill-conditioned last CVO-QRAM rotation)",
 ]
 ASSUMPTIONS = ["exact real/complex arithmetic in the theorems; implementation compared to 1e-7 (oracle) / 1e-9 (tie)",
-               "all listed amplitudes are non-zero (|a| >= 0.02 in the generators)"]
+               "all listed amplitudes are non-zero (generic generators keep |a| >= 0.02; the light-tail families go down to 1e-6)"]
 RULE = ("branch coverage: key sets pre-screened with the recording wrappers so that every operand-kind combination reaching "
         "merge's _compute_angles (complex/complex, float/complex, complex/float, float/float), every pivot MCX back-end / ladder "
         "length and every CVO control count is exercised with complex and negative-real amplitudes (histogram in branch_histogram); "
         "tie: (initializer, options, ordered dictionary) whose trace (selections, tracked dictionaries after every step, angles, dense "
         "hand-off vector, flattened gate list with opaque multi-controlled gates) was diffed against the Lean model; oracle: "
         "Statevector(definition) vs embedded dictionary on the full register; distinct = different (variant, ordered keys, amplitude kind); "
-        "non-trivial = m >= 2")
+        "non-trivial = m >= 2; input-diversity section (_diversity_*): element types (int / float / complex / numpy 32- and 64-bit "
+        "scalars, signed zeros), heavy head + 1e-3..1e-6 tail in every load position, exact phases +-1 +-i, global phases, repeated "
+        "values, dictionary orders, n = 1..3 size ladders, and every entry form (partial / None-valued / shared opt_params, copies, "
+        "gate appended twice, static initialize with every option on permuted wires as ints / Qubit objects / tuple / positional), "
+        "each through tie and oracle, counters diversity:*")
 DRIVER = "Drivers/C06.lean"
 
 TOL = 1e-7
@@ -102,17 +106,50 @@ def vname(alg, opts):
     return f"cvo.{'aux' if opts['aux'] else 'noaux'}.{opts['method']}"
 
 
+def _tname(a):
+    """name of the exact Python / numpy type of an amplitude ('int', 'float', 'complex', 'np.float32', ...)"""
+    t = type(a)
+    return t.__name__ if t in (int, float, complex, bool) else "np." + t.__name__
+
+
+def _cast(v, tname):
+    """the value `v` as an object of the named scalar type (harness side; the ideal is computed from the result)"""
+    z = complex(v)
+    if tname == "complex":
+        return complex(z)
+    if tname == "float":
+        return float(z.real)
+    if tname == "int":
+        return int(round(z.real))
+    npt = getattr(np, tname.split(".", 1)[1])
+    if np.issubdtype(npt, np.complexfloating):
+        return npt(z)
+    if np.issubdtype(npt, np.integer):
+        return npt(int(round(z.real)))
+    return npt(z.real)
+
+
 def enc_amps(amps):
-    """JSON form (replay payloads) that keeps the Python type of each amplitude: [re, im] = complex, [re] = float"""
-    return [[float(a.real), float(a.imag)] if isinstance(a, complex) else [float(a)] for a in amps]
+    """JSON form (replay payloads) that keeps the Python type of each amplitude: [re, im] = complex, [re] = float,
+    [re, im, typename] = any other scalar type (int, numpy scalars); signed zeros survive the JSON round trip"""
+    out = []
+    for a in amps:
+        if type(a) is complex:
+            out.append([float(a.real), float(a.imag)])
+        elif type(a) is float:
+            out.append([float(a)])
+        else:
+            out.append([float(np.real(a)), float(np.imag(a)), _tname(a)])
+    return out
 
 
 def dec_amps(xs):
-    return [complex(x[0], x[1]) if len(x) == 2 else float(x[0]) for x in xs]
+    return [_cast(complex(x[0], x[1]), x[2]) if len(x) == 3 else complex(x[0], x[1]) if len(x) == 2 else float(x[0])
+            for x in xs]
 
 
 def dhash(keys, amps):
-    h = hashlib.sha1((",".join(keys) + "|" + ",".join(f"{a.real:.6f}{a.imag:+.6f}" for a in amps)).encode()).hexdigest()[:8]
+    h = hashlib.sha1((",".join(keys) + "|" + ",".join(f"{float(np.real(a)):.6f}{float(np.imag(a)):+.6f}" for a in amps)).encode()).hexdigest()[:8]
     return h
 
 
@@ -206,11 +243,51 @@ DEFAULT_OPTS = {"merge": {}, "pivot": {"aux": False}, "cvo": {"aux": True, "meth
 FORMS = ("none", "empty", "label", "static", "static-qubits")
 
 
+# entry forms added by the input-diversity pass (see _diversity_calls); every one is rebuilt by `build` from
+# (alg, effective options, dictionary, form, wires) so that a replay payload only has to carry these
+OPTION_FORMS = ("partial", "nonevals", "extra-key", "reuse-first", "reuse-second")      # need opt_params (not merge)
+OBJECT_FORMS = ("copy-before-def", "orig-after-copy", "copy-after-def", "odict", "twice")
+STATIC_FORMS = ("static-qubits", "static-desc", "static-qobj", "static-pos", "static-tuple")
+OPT_DEFAULTS = {"pivot": {"aux": False}, "cvo": {"with_aux": True, "mcg_method": "linear"}}
+
+
+def _opt_dict(alg, opts):
+    """the FULL opt_params dictionary that requests the effective options `opts`"""
+    if alg == "pivot":
+        return {"aux": opts["aux"]}
+    if alg == "cvo":
+        return {"with_aux": opts["aux"], "mcg_method": opts["method"]}
+    return None
+
+
+def _other_opts(alg, opts):
+    """different (valid) option contents, written into a shared opt_params object before / after the observed construction"""
+    if alg == "pivot":
+        return {"aux": not opts["aux"]}
+    return {"with_aux": not opts["aux"], "mcg_method": {"linear": "barenco", "qiskit": "linear", "barenco": "qiskit"}[opts["method"]]}
+
+
 def build(alg, opts, d, form="opt", wires=None, width=None):
     """form: how the gate is requested.  'opt' = explicit options (the bulk of the cases); 'none' / 'empty' = opt_params None / {}
     (only meaningful when `opts` are the class defaults); 'label'; 'static' / 'static-qubits' = the class's static
-    `initialize(q_circuit, state, qubits)` on a host circuit (returns the host circuit's only instruction)."""
-    from qiskit import QuantumCircuit
+    `initialize(q_circuit, state, qubits)` on a host circuit (returns the host circuit's only instruction).
+    Diversity forms (opts = the EFFECTIVE options the call is documented to select):
+      'partial'         opt_params holds only the keys that differ from the documented defaults (possibly {})
+      'nonevals'        keys at their default are present with value None
+      'extra-key'       full dictionary plus an unrelated key
+      'reuse-first'     ONE opt_params object used for two constructions, contents changed after the observed (first) one
+      'reuse-second'    ... contents changed before the observed (second) one
+      'copy-before-def' gate.copy() taken before any definition exists; the copy is observed
+      'orig-after-copy' the original is observed after a copy was taken
+      'copy-after-def'  copy taken after the definition was built; the copy is observed
+      'odict'           the dictionary is a collections.OrderedDict
+      'twice'           the same gate object appended on two disjoint, permuted wire lists of one host (wires = [w1, w2])
+      'static-qubits'   static initialize(host, d, qubits=[permuted ints], opt_params=...) on a wider host
+      'static-desc'     the same with a strictly descending wire list
+      'static-qobj'     qubits are Qubit objects of a host made of two registers
+      'static-pos'      every argument positional
+      'static-tuple'    qubits given as a tuple"""
+    from qiskit import QuantumCircuit, QuantumRegister
     if alg == "merge":
         from qclib.state_preparation.merge import MergeInitialize as cls
         kw = {}
@@ -226,14 +303,69 @@ def build(alg, opts, d, form="opt", wires=None, width=None):
             kw = {"opt_params": None if form == "none" else {}}
     if form == "label":
         return cls(dict(d), label="psi", **kw)
-    if form in ("static", "static-qubits"):
-        host = QuantumCircuit(width if form == "static" else width + 1)
+    if form in OPTION_FORMS:
+        assert alg != "merge"
+        full, dflt = _opt_dict(alg, opts), OPT_DEFAULTS[alg]
+        if form == "partial":
+            return cls(dict(d), opt_params={k: v for k, v in full.items() if v != dflt[k]})
+        if form == "nonevals":
+            return cls(dict(d), opt_params={k: (None if v == dflt[k] else v) for k, v in full.items()})
+        if form == "extra-key":
+            return cls(dict(d), opt_params=dict(full, unused_option=1))
+        other = _other_opts(alg, opts)
+        if form == "reuse-first":
+            shared = dict(full)
+            gate = cls(dict(d), opt_params=shared)
+            shared.update(other)
+            cls(dict(d), opt_params=shared)
+            return gate                      # its definition is built only now, after the shared object changed
+        shared = dict(other)
+        cls(dict(d), opt_params=shared)
+        shared.update(full)
+        return cls(dict(d), opt_params=shared)
+    if form == "copy-before-def":
+        return cls(dict(d), **kw).copy()
+    if form == "orig-after-copy":
+        gate = cls(dict(d), **kw)
+        gate.copy()
+        return gate
+    if form == "copy-after-def":
+        gate = cls(dict(d), **kw)
+        assert gate.definition is not None
+        return gate.copy()
+    if form == "odict":
+        import collections
+        return cls(collections.OrderedDict(d), **kw)
+    if form == "twice":
+        host = QuantumCircuit(max(max(w) for w in wires) + 1)
+        gate = cls(dict(d), **kw)
+        for w in wires:
+            host.append(gate, list(w))
+        gate._c06_host, gate._c06_places = host, [list(w) for w in wires]
+        return gate
+    if form == "static" or form in STATIC_FORMS:
         if form == "static":
+            host = QuantumCircuit(width)
             cls.initialize(host, dict(d), **kw)
+            places = [list(range(width))]
         else:
-            cls.initialize(host, dict(d), qubits=list(wires), **kw)
+            hw = max(width + 1, max(wires) + 1)
+            if form == "static-qobj":
+                a = max(1, hw // 3)
+                host = QuantumCircuit(QuantumRegister(a, "ra"), QuantumRegister(hw - a, "rb"))
+                cls.initialize(host, dict(d), qubits=[host.qubits[i] for i in wires], **kw)
+            elif form == "static-pos":
+                host = QuantumCircuit(hw)
+                cls.initialize(host, dict(d), list(wires), *kw.values())
+            elif form == "static-tuple":
+                host = QuantumCircuit(hw)
+                cls.initialize(host, dict(d), qubits=tuple(wires), **kw)
+            else:
+                host = QuantumCircuit(hw)
+                cls.initialize(host, dict(d), qubits=list(wires), **kw)
+            places = [list(wires)]
         gate = host.data[0].operation
-        gate._c06_host = host
+        gate._c06_host, gate._c06_places = host, places
         return gate
     return cls(dict(d), **kw)
 
@@ -305,16 +437,21 @@ def oracle_case(ctx, alg, opts, keys, amps, kind, form="opt", wires=None, allow_
         ctx.count(f"branch:entry-form:{name}:{form}")
     host = getattr(gate, "_c06_host", None)
     if host is not None and worst <= TOL:
-        # the instruction sits on the requested wires and the host circuit carries the state there
-        ws = list(range(width)) if form == "static" else list(wires)
-        got = [host.find_bit(q).index for q in host.data[0].qubits]
+        # every instruction sits on the requested wires and the host circuit carries the (product) state there
+        places = gate._c06_places
+        got = [[host.find_bit(q).index for q in inst.qubits] for inst in host.data]
         hv = np.asarray(Statevector(host).data)
         hexp = np.zeros(2 ** host.num_qubits, dtype=complex)
-        for i in np.nonzero(exp)[0]:
-            hexp[sum(((int(i) >> b) & 1) << ws[b] for b in range(width))] = exp[i]
+        nz = [int(i) for i in np.nonzero(exp)[0]]
+        for combo in itertools.product(nz, repeat=len(places)):
+            pos, amp = 0, 1.0 + 0.0j
+            for i, ws in zip(combo, places):
+                pos |= sum(((i >> b) & 1) << ws[b] for b in range(width))
+                amp *= exp[i]
+            hexp[pos] = amp
         herr = float(np.abs(hv - hexp).max())
-        if got != ws or herr > TOL:
-            ctx.fail(f"{name}:static-wiring:{tag}", f"initialize(...) appended on wires {got} (asked {ws}); host state error {herr:.3e}",
+        if got != places or herr > TOL:
+            ctx.fail(f"{name}:static-wiring:{tag}", f"gate appended on wires {got} (asked {places}); host state error {herr:.3e}",
                      pl(alg, opts, keys, amps))
             return
     if worst <= TOL:
@@ -368,35 +505,44 @@ def _recheck_without_a2(alg, opts, d, form, wires, width, exp):
         return None
 
 
-def tie_case(ctx, alg, opts, keys, amps):
+def tie_case(ctx, alg, opts, keys, amps, form="opt", wires=None):
+    """`form` != 'opt': the gate is requested through that entry form (see `build`) inside the recording wrappers; the model is
+    still asked for (effective options, dictionary) - an entry form must not change what is built."""
     from props import c06_trace as T
     n = len(keys[0])
     d = dict(zip(keys, amps))
+    make = None
+    if form != "opt":
+        def make():
+            return build(alg, opts, d, form, wires, layout(alg, opts, n, len(keys))[0])
     # Initialize.validate_parameter turns every amplitude into a Python complex before the algorithms see it
     op = {"op": alg, "n": n, "keys": list(keys), "amps": [[float(a.real), float(a.imag)] for a in amps]}
     if _hangs(ctx).get(vname(alg, opts), 0) >= 2:
         return
+    fsuffix = "" if form == "opt" else f":form={form}"
+    fextra = None if form == "opt" else {"form": form, "wires": wires}
     try:
         with time_limit(BUILD_LIMIT_S):
             if alg == "merge":
-                lines, _ = T.trace_merge(d)
+                lines, _ = T.trace_merge(d, make=make)
             elif alg == "pivot":
                 op["aux"] = opts["aux"]
-                lines, _ = T.trace_pivot(d, opts["aux"])
+                lines, _ = T.trace_pivot(d, opts["aux"], make=make)
             else:
                 op["aux"] = opts["aux"]
                 op["method"] = opts["method"]
-                lines, _ = T.trace_cvo(d, opts["aux"], opts["method"])
+                lines, _ = T.trace_cvo(d, opts["aux"], opts["method"], make=make)
     except Hang as e:
-        ctx.fail(f"{vname(alg, opts)}:hangs:n={n}:m={len(keys)}:tie:{dhash(keys, amps)}",
-                 f"construction does not terminate ({e})", payload(alg, opts, keys, amps))
+        ctx.fail(f"{vname(alg, opts)}:hangs:n={n}:m={len(keys)}:tie:{dhash(keys, amps)}" + fsuffix,
+                 f"construction does not terminate ({e})", payload(alg, opts, keys, amps, fextra))
         _hangs(ctx)[vname(alg, opts)] = _hangs(ctx).get(vname(alg, opts), 0) + 1
         return
     except Exception as e:
-        ctx.fail(f"{vname(alg, opts)}:raises:{type(e).__name__}:n={n}:m={len(keys)}:tie:{dhash(keys, amps)}",
-                 f"construction raised {type(e).__name__}: {e}", payload(alg, opts, keys, amps))
+        ctx.fail(f"{vname(alg, opts)}:raises:{type(e).__name__}:n={n}:m={len(keys)}:tie:{dhash(keys, amps)}" + fsuffix,
+                 f"construction raised {type(e).__name__}: {e}", payload(alg, opts, keys, amps, fextra))
         return
-    ctx.tie(op, lines, label=f"{vname(alg, opts)} n={n} keys={','.join(keys)}")
+    ctx.tie(op, lines, label=f"{vname(alg, opts)} n={n} keys={','.join(keys)}" + ("" if form == "opt" else f" form={form}")
+            + ("" if all(type(a) is complex for a in amps) else " types=" + ",".join(sorted({_tname(a) for a in amps}))))
     ctx.count(f"tie:{vname(alg, opts)}")
     # coverage of the type- / order- / size-dependent branches actually taken by the real code
     if alg == "merge":
@@ -829,7 +975,7 @@ def merge_single(ctx, key, amp):
     from qiskit.quantum_info import Statevector
     from qclib.state_preparation.merge import MergeInitialize
     n = len(key)
-    tag = f"merge:m=1:n={n}:key={key}:amp={amp.real:g}{amp.imag:+g}j"
+    tag = f"merge:m=1:n={n}:key={key}:amp={float(np.real(amp)):g}{float(np.imag(amp)):+g}j" + ("" if type(amp) is complex else f":{_tname(amp)}")
     rep = payload("merge", {}, [key], [amp], {"single": True})
     try:
         with time_limit(BUILD_LIMIT_S):
@@ -845,6 +991,334 @@ def merge_single(ctx, key, amp):
                       f"{np.abs(rest).max() if len(rest) else 0:.3e}", rep)
     else:
         ctx.ok(tag, nontrivial=False)
+
+
+
+# ----------------------------------------------------------------------------------------------
+# input-diversity pass: the FORM of otherwise ordinary valid inputs
+# ----------------------------------------------------------------------------------------------
+#   (1) element types   python int (m = 1: the only normalised integer dictionaries are a single basis state with value 1 / -1),
+#                       float, complex, numpy float32 / float64 / complex64 / complex128 / int64 scalars, one type per entry mixed
+#                       in one dictionary, complex values with -0.0 components.  float32 / complex64 values are dyadic rationals
+#                       with sum of squares EXACTLY one (a float32-rounded generic vector is only normalised to ~6e-8, which
+#                       is not a valid input at the oracle's 1e-7).
+#   (2) scale           heavy head + light tail 1e-3 .. 1e-6 (head first / last / mixed in LOAD order), a single heavy
+#                       amplitude, all-equal moduli, exactly repeated values
+#   (3) sign / phase    per-entry phases exactly +-1, +-i; all negative; purely imaginary (signed / all +i / all -i); global phase -1, i
+#   (4) call forms      see `build`: partial / None-valued / over-full / shared-and-mutated opt_params objects, copies, the same
+#                       gate appended twice, static initialize with EVERY option combination on permuted / descending wire
+#                       lists of a wider host, as ints / Qubit objects / tuple / positional
+#   (5) sizes / orders  n = 1, 2, 3 with m = 1 (where defined), 2, 3, 4, 5, 2^n; key sets of one Hamming weight, with 0..0 and
+#                       1..1; dictionary orders ascending / descending / shuffled (CVO: the same inside each weight class);
+#                       pivot sizes m = 3, 4, 5, 8, 9 (ceil(log2 m) below / at / above n/2; v-chain with 2, 3, 4 controls)
+#   Every case: oracle (Statevector vs the dictionary embedded by the harness from the ORIGINAL values) and, for the seven
+#   modelled variants, the tie (the model gets complex(value); an input form must not change what is built).
+
+def _div_variants(variants):
+    names = {vname(*v) for v in variants}
+    return variants + [v for v in ORACLE_EXTRA if vname(*v) not in names and len(names) == len(VARIANTS)]
+
+
+def _div_case(ctx, variants, alg, opts, keys, amps, name, form="opt", wires=None):
+    m = len(keys)
+    if m == 1:
+        # a single basis state: merge promises it up to the phase, CVO-QRAM exactly; pivot is not defined for m = 1
+        if alg == "merge" and form == "opt":
+            ctx.count(f"diversity:{name}:merge:m=1")
+            merge_single(ctx, keys[0], amps[0])
+        elif alg == "cvo":
+            ctx.count(f"diversity:{name}:cvo:m=1")
+            if (alg, opts) in variants:
+                tie_case(ctx, alg, opts, keys, amps, form, wires)
+            oracle_case(ctx, alg, opts, keys, amps, "div:" + name, form=form, wires=wires, allow_m1=True)
+        return
+    if not valid(alg, opts, m):
+        return
+    ctx.count(f"diversity:{name}:{alg}")
+    if (alg, opts) in variants:
+        tie_case(ctx, alg, opts, keys, amps, form, wires)
+    oracle_case(ctx, alg, opts, keys, amps, "div:" + name, form=form, wires=wires)
+
+
+def _ordered(ctx, alg, keys, how):
+    """dictionary insertion order: 'asc' / 'desc' (as binary numbers) / 'shuffled' / 'weight-desc'; CVO-QRAM needs non-decreasing
+    Hamming weight, so there the requested order is kept inside each weight class (stable sort)"""
+    ks = sorted(keys)
+    if how == "desc":
+        ks.reverse()
+    elif how == "shuffled":
+        ctx.rng.shuffle(ks)
+    elif how == "weight-desc":
+        ks.sort(key=lambda k: -k.count("1"))
+    if alg == "cvo":
+        ks.sort(key=lambda k: k.count("1"))
+    return ks
+
+
+def _unit(v):
+    nrm = math.sqrt(sum(abs(z) ** 2 for z in v))
+    return [complex(z) / nrm for z in v]
+
+
+def _dyadic_reals(ctx, length):
+    """`length` >= 4 positive dyadic rationals a_i / 2^k with sum of squares exactly 1 (exact in float32)"""
+    r = ctx.rng
+    if length == 4:
+        return [0.5] * 4                       # 4^k is a sum of four positive squares in one way only
+    for k in (4, 5, 6):
+        total = 4 ** k
+        hi = max(2, int(1.6 * math.sqrt(total / length)))
+        for _ in range(400):
+            head = [r.randint(1, hi) for _ in range(length - 2)]
+            rest = total - sum(a * a for a in head)
+            for a in range(1, math.isqrt(max(rest, 0)) + 1):
+                b = math.isqrt(rest - a * a)
+                if b >= 1 and a * a + b * b == rest:
+                    v = head + [a, b]
+                    r.shuffle(v)
+                    return [x / 2 ** k for x in v]
+    raise RuntimeError(f"no dyadic unit vector of length {length}")
+
+
+def _dyadic_amps(ctx, m, cplx):
+    """m non-zero amplitudes (python float / complex), components dyadic, norm exactly 1; real vectors need m >= 4"""
+    r = ctx.rng
+    if not cplx:
+        return [r.choice([-1, 1]) * x for x in _dyadic_reals(ctx, m)]
+    length = min(2 * m, max(4, m + r.randint(1, m)))
+    comp = [r.choice([-1, 1]) * x for x in _dyadic_reals(ctx, length)]
+    two = length - m                           # this many amplitudes get a real AND an imaginary component
+    out = [complex(comp[2 * i], comp[2 * i + 1]) for i in range(two)]
+    for x in comp[2 * two:]:
+        out.append(complex(x, 0.0) if r.random() < 0.5 else complex(0.0, x))
+    r.shuffle(out)
+    return out
+
+
+TYPE_FORMS = ("float", "complex", "np.float64", "np.complex128", "np.float32", "np.complex64", "mixed-types", "negzero",
+              "array-items")
+
+
+def _typed_amps(ctx, m, tform):
+    """amplitudes of one element-type form, or None where the form has no valid normalised instance of that size"""
+    r = ctx.rng
+    if tform in ("float", "np.float64"):
+        v = amplitudes(ctx, m, "fsigned" if m >= 2 else "fneg")
+        if m == 2 and r.random() < 0.5:
+            v = [0.6, -0.8] if r.random() < 0.5 else [-0.8, -0.6]
+        return [_cast(x, tform) for x in v]
+    if tform in ("complex", "np.complex128"):
+        v = amplitudes(ctx, m, r.choice(["complex", "mixed", "neg"]))
+        return [_cast(x, tform) for x in v]
+    if tform == "np.float32":
+        return [np.float32(x) for x in _dyadic_amps(ctx, m, False)] if m >= 4 else None
+    if tform == "np.complex64":
+        return [np.complex64(x) for x in _dyadic_amps(ctx, m, True)] if m >= 2 else None
+    if tform == "mixed-types":
+        if m < 2:
+            return None
+        names = ["np.complex64", "float", "np.float32", "complex", "np.float64", "np.complex128"]
+        v = _dyadic_amps(ctx, m, True)
+        out = []
+        for i, z in enumerate(v):
+            t = names[i % len(names)]
+            if z.imag != 0.0 and t in ("float", "np.float32", "np.float64"):
+                t = "np.complex64" if i % 2 else "complex"
+            out.append(_cast(z, t))
+        return out
+    if tform == "negzero":
+        # exactly-zero components carried as -0.0: negative and positive reals with imaginary part -0.0, imaginary values with
+        # real part -0.0 (`imag < 0` is False for -0.0, log / arccos see a signed zero)
+        mod = [abs(x) for x in amplitudes(ctx, m, "fpos")]
+        pats = [lambda x: complex(-x, -0.0), lambda x: complex(x, -0.0), lambda x: complex(-0.0, x), lambda x: complex(-0.0, -x)]
+        return [pats[i % 4](x) for i, x in enumerate(mod)]
+    if tform == "array-items":
+        # the values are the items of a numpy array (what `dict(zip(keys, vector))` gives): numpy scalars of the array's dtype
+        pick = r.randrange(3)
+        if pick == 0 and m >= 4:
+            return list(np.array(_dyadic_amps(ctx, m, False), dtype=np.float32))
+        if pick == 1:
+            return list(np.array([float(np.real(x)) for x in amplitudes(ctx, m, "fsigned" if m >= 2 else "fneg")], dtype=np.float64))
+        return list(np.array(amplitudes(ctx, m, "signed" if pick == 0 else "complex"), dtype=np.complex128))
+    raise ValueError(tform)
+
+
+def _diversity_types(ctx, variants):
+    allv = _div_variants(variants)
+    for tform in TYPE_FORMS:
+        for n, m in ((1, 2), (2, 3), (2, 4), (3, 5), (4, 6)):
+            for alg, opts in allv:
+                amps = _typed_amps(ctx, m, tform)
+                if amps is None:
+                    continue
+                keys = order_for(ctx, alg, ctx.rng.sample(all_keys(n), m))
+                _div_case(ctx, variants, alg, opts, keys, amps, f"type:{tform}")
+    # integers: the only normalised all-integer dictionary is one basis state with value 1 or -1
+    for tname in ("int", "np.int64", "np.int32", "float", "np.float32", "np.complex64"):
+        for key in ("1", "00", "10", "011", "111"):
+            for val in (1, -1):
+                amp = _cast(val, tname)
+                for alg, opts in allv:
+                    _div_case(ctx, variants, alg, opts, [key], [amp], f"type:{tname}:single")
+
+
+def _tail_amps(m, heads, arrangement):
+    """heavy head (0.8, 0.6 / a single 1) and a light tail of moduli 1e-3 .. 1e-6 with phases 1, -1, i, -i, e^{0.7i};
+    arrangement in dictionary (= CVO load) order: head first, head last, or interleaved"""
+    import cmath
+    mags = [1e-3, 1e-4, 1e-5, 1e-6]
+    nt = m - heads
+    mags = mags[-nt:] if nt <= 4 else [mags[i % 4] for i in range(nt)]
+    phs = [1, -1, 1j, -1j, cmath.exp(0.7j)]
+    tail = [mags[i] * phs[i % 5] for i in range(nt)]
+    head = [0.8, -0.6][:heads] if heads == 2 else [-1.0]
+    if arrangement == "head-first":
+        v = head + tail
+    elif arrangement == "head-last":
+        v = tail[::-1] + head
+    else:
+        v, h, t = [], list(head), list(tail)
+        while h or t:
+            if t:
+                v.append(t.pop(0))
+            if h:
+                v.append(h.pop(0))
+    return _unit(v)
+
+
+def _scale_phase_structures(ctx, m):
+    """(name, amplitudes) for the scale / sign / phase families at size m >= 2"""
+    r = ctx.rng
+    rt = 1.0 / math.sqrt(m)
+    mod = [abs(x) for x in amplitudes(ctx, m, "fpos")]
+    phs = [(1, -1, 1j, -1j)[i % 4] for i in range(m)]
+    r.shuffle(phs)
+    out = [("equal-phases+-1+-i", [complex(p) * rt for p in phs]),
+           ("equal-all-neg", [complex(-rt, 0.0)] * m),
+           ("equal-all+i", [complex(0.0, rt)] * m),
+           ("equal-all-i", [complex(0.0, -rt)] * m),
+           ("gphase-1", [complex(-x, 0.0) for x in mod]),
+           ("gphase+i", [complex(0.0, x) for x in mod]),
+           ("imag-signed", [complex(0.0, x * (-1) ** i) for i, x in enumerate(mod)]),
+           ("phases+-1+-i", [complex(p) * x for p, x in zip(phs, mod)])]
+    if m >= 3:
+        ka, kb = (m + 1) // 2, m // 2
+        a = r.uniform(0.3, 0.9) / math.sqrt(ka)
+        b = -math.sqrt((1.0 - ka * a * a) / kb)
+        out.append(("repeated-values", [complex(a if i % 2 == 0 else b, 0.0) for i in range(m)]))
+        for arr in ("head-first", "head-last", "mixed"):
+            out.append((f"tail-1e-6:{arr}", _tail_amps(m, 2 if m >= 3 else 1, arr)))
+        out.append(("single-heavy:first", _tail_amps(m, 1, "head-first")))
+        out.append(("single-heavy:last", _tail_amps(m, 1, "head-last")))
+    return out
+
+
+def _diversity_scale_phase(ctx, variants):
+    allv = _div_variants(variants)
+    sizes = [(1, 2), (2, 3), (3, 4), (3, 6), (4, 5)]
+    for si, (n, m) in enumerate(sizes):
+        for name, amps in _scale_phase_structures(ctx, m):
+            if name.startswith(("tail", "single-heavy")) or si % 2 == 0 or not ctx.quick:
+                sub = ctx.rng.sample(all_keys(n), m)
+                for alg, opts in allv:
+                    # the amplitudes stay attached to the positions of the (ordered) key list: load order = list order
+                    _div_case(ctx, variants, alg, opts, order_for(ctx, alg, sub), list(amps), f"scale:{name}")
+
+
+def _diversity_orders(ctx, variants):
+    """dictionary insertion orders and key-set shapes"""
+    allv = _div_variants(variants)
+    r = ctx.rng
+    sets = [("n=1:dense", ["0", "1"]),
+            ("n=2:dense", all_keys(2)),
+            ("n=3:dense", all_keys(3)),
+            ("n=2:00+11", ["00", "11"]),
+            ("n=3:000+111+1", ["000", "111", r.choice(["001", "010", "100", "011", "101", "110"])]),
+            ("n=4:0000+1111+3", ["0000", "1111"] + r.sample([k for k in all_keys(4) if k not in ("0000", "1111")], 3)),
+            ("n=3:weight1", ["001", "010", "100"]),
+            ("n=4:weight2", r.sample([k for k in all_keys(4) if k.count("1") == 2], 5)),
+            ("n=4:weight3", [k for k in all_keys(4) if k.count("1") == 3]),
+            ("n=5:weight2+3", r.sample([k for k in all_keys(5) if k.count("1") in (2, 3)], 6))]
+    for sname, keys in sets:
+        for how in ("asc", "desc", "shuffled", "weight-desc"):
+            kind = r.choice(["complex", "signed", "neg"])
+            for alg, opts in allv:
+                if how == "weight-desc" and alg == "cvo":
+                    continue
+                ks = _ordered(ctx, alg, keys, how)
+                _div_case(ctx, variants, alg, opts, ks, amplitudes(ctx, len(ks), kind), f"order:{how}:{sname}")
+
+
+def _perm_wires(ctx, width, host, descending=False):
+    """`width` distinct wires of a `host`-qubit circuit, never in ascending order"""
+    while True:
+        ws = ctx.rng.sample(range(host), width)
+        if descending:
+            ws.sort(reverse=True)
+        if ws != sorted(ws) or width == 1:
+            return ws
+
+
+def _diversity_calls(ctx, variants):
+    allv = _div_variants(variants)
+    r = ctx.rng
+    for alg, opts in allv:
+        forms = list(OBJECT_FORMS) + list(STATIC_FORMS) + (list(OPTION_FORMS) if alg != "merge" else [])
+        for form in forms:
+            for n, m in ((2, 3), (3, 5)):
+                if form == "twice" and (n, m) != (2, 3):
+                    continue
+                if not valid(alg, opts, m):
+                    continue
+                width = layout(alg, opts, n, m)[0]
+                wires = None
+                if form == "twice":
+                    pool = r.sample(range(2 * width + 1), 2 * width)
+                    wires = [pool[:width], pool[width:]]
+                    if wires[0] == sorted(wires[0]):
+                        wires[0].reverse()
+                elif form in STATIC_FORMS:
+                    wires = _perm_wires(ctx, width, width + r.choice([1, 2]), descending=(form == "static-desc"))
+                kind = r.choice(["complex", "neg", "fsigned"])
+                keys = order_for(ctx, alg, r.sample(all_keys(n), m))
+                _div_case(ctx, variants, alg, opts, keys, amplitudes(ctx, m, kind), f"call:{form}", form=form, wires=wires)
+
+
+def _diversity_sizes(ctx, variants):
+    """size ladders combined with the new forms: n = 1, 2, 3 with m = 1, 2, 3, 4, 5, 2^n; pivot m = 3, 4, 5, 8, 9"""
+    allv = _div_variants(variants)
+    r = ctx.rng
+    tforms = ["float", "np.complex128", "negzero", "complex"]
+    i = 0
+    for n in (1, 2, 3):
+        for m in sorted({1, 2, 3, 4, 5, 2 ** n}):
+            if m > 2 ** n:
+                continue
+            sub = r.sample(all_keys(n), m)
+            for alg, opts in allv:
+                tf = tforms[i % len(tforms)]
+                i += 1
+                amps = _typed_amps(ctx, m, tf) if m >= 2 else [_cast(r.choice([1, -1]), "float" if tf == "negzero" else tf)]
+                _div_case(ctx, variants, alg, opts, order_for(ctx, alg, sub), amps, f"size:n={n}:m={m}")
+    for n, m in ((4, 3), (4, 4), (4, 5), (5, 4), (5, 5), (5, 8), (5, 9), (6, 8), (6, 9)):
+        t = int(math.ceil(math.log2(m)))
+        for alg, opts in variants:
+            if alg != "pivot" or not valid(alg, opts, m) or (opts["aux"] and n + t - 1 > 10):
+                continue
+            sub = _keys_with_pivot(ctx, n, m)
+            for name, amps in (("typed", _typed_amps(ctx, m, tforms[i % len(tforms)])),
+                               ("phases", [complex(p) / math.sqrt(m) for p in ((1, -1, 1j, -1j) * 3)[:m]])):
+                i += 1
+                ctx.count(f"diversity:size:pivot{'.aux v-chain controls' if opts['aux'] else ' t'}={t}:n={n}")
+                _div_case(ctx, variants, alg, opts, order_for(ctx, alg, sub), amps, f"size:pivot:n={n}:m={m}:{name}")
+
+
+def _diversity_all(ctx, variants):
+    _diversity_types(ctx, variants)
+    _diversity_scale_phase(ctx, variants)
+    _diversity_orders(ctx, variants)
+    _diversity_calls(ctx, variants)
+    _diversity_sizes(ctx, variants)
 
 
 UNREACHED_JUSTIFIED = {
@@ -873,6 +1347,7 @@ def run(ctx, nmax_or=None, n_orders=None, only=None):
     float_typed_cases(ctx, variants)
     entry_form_cases(ctx, variants)
     boundary_cases(ctx, variants)
+    _diversity_all(ctx, variants)
     if only is None:
         probe_matrix_angles(ctx)
 
@@ -930,7 +1405,10 @@ def run(ctx, nmax_or=None, n_orders=None, only=None):
     ctx.notes.append("amplitudes generated with |a_i| >= 0.06/sqrt(m): zero / denormal amplitudes (division by |x| in "
                      "_compute_matrix_angles, log(0) in _compute_angles) are outside the property's 'non-zero amplitudes'")
     ctx.notes.append("CVO-QRAM with auxiliaries at n=7 (14 qubits) is tied but not simulated")
-    ctx.notes.append("merge with m=1 (up to phase) and pivot with m=1 / aux with m=2 are outside the stated preconditions and not generated")
+    ctx.notes.append("pivot with m=1 / aux with m=2 are outside the stated preconditions and not generated; merge with m=1 is checked up to phase")
+    ctx.notes.append("diversity: numpy float32 / complex64 dictionaries use dyadic values with sum of squares exactly 1 (a float32-rounded "
+                     "generic vector is normalised only to ~6e-8, not a valid input at the 1e-7 tolerance); all-integer dictionaries exist "
+                     "only for m = 1 (value 1 / -1); zero amplitudes stay outside the property")
 
 
 def search(ctx, hints):
@@ -966,6 +1444,6 @@ def replay(ctx, payload):
     r = payload["replay"]
     amps = dec_amps(r["amps"])
     if r.get("single"):
-        merge_single(ctx, r["keys"][0], complex(amps[0]))
+        merge_single(ctx, r["keys"][0], amps[0])
         return
     oracle_case(ctx, r["alg"], r["opts"], r["keys"], amps, "replay", form=r.get("form", "opt"), wires=r.get("wires"))
